@@ -204,3 +204,347 @@ Proof.
         by (apply mul_lt_pow2_log2; lia).
       lia.
 Qed.
+
+(* ------------------------------------------------------------------ *)
+(* extended Euclid                                                      *)
+
+Lemma egcd_spec : forall fuel a b g s t,
+  0 <= b <= a -> a * b < 2 ^ Z.of_nat fuel ->
+  egcd fuel a b = (g, s, t) -> g = Z.gcd a b /\ a * s + b * t = g.
+Proof.
+  induction fuel as [|f IH]; intros a b g s t Hab Hb E; cbn [egcd] in E.
+  - change (2 ^ Z.of_nat 0) with 1 in Hb.
+    assert (Eb : b = 0) by nia. subst b. inversion E; subst.
+    rewrite Z.gcd_0_r. lia.
+  - destruct (Z.eqb_spec b 0) as [Eb|Nb].
+    + subst b. inversion E; subst. rewrite Z.gcd_0_r. lia.
+    + destruct (egcd f b (a mod b)) as [[g' s'] t'] eqn:E'.
+      inversion E; subst g t s. clear E.
+      assert (Pb : 0 < b) by lia.
+      pose proof (Z.mod_pos_bound a b Pb) as Hr.
+      pose proof (Z.div_mod a b Nb) as Hdm.
+      assert (Hq : 0 < a / b) by (apply Z.div_str_pos; lia).
+      set (q := a / b) in *. set (r := a mod b) in *.
+      assert (H2r : 2 * r < a) by nia.
+      rewrite Nat2Z.inj_succ, Z.pow_succ_r in Hb by lia.
+      destruct (IH b r g' s' t') as [Hg Hz]; [lia|nia|exact E'|].
+      split.
+      * rewrite Hg. unfold r. rewrite Z.gcd_comm, Z.gcd_mod by exact Nb. apply Z.gcd_comm.
+      * rewrite <- Hz. rewrite Hdm at 1. ring.
+Qed.
+
+Lemma egcd_top a b g s t : 0 < a -> 0 < b ->
+  egcd (egcd_fuel a b) a b = (g, s, t) -> g = Z.gcd a b /\ a * s + b * t = g.
+Proof.
+  intros Ha Hb E. unfold egcd_fuel in E.
+  pose proof (Z.log2_nonneg (Z.max a b)) as Hl.
+  assert (Hm : a * b < 2 ^ (2 * Z.log2 (Z.max a b) + 2)) by (apply mul_lt_pow2_log2; lia).
+  set (L := Z.log2 (Z.max a b)) in *.
+  assert (Hp : 2 ^ (2 * L + 2) <= 2 ^ (2 * L + 3)) by (apply Z.pow_le_mono_r; lia).
+  destruct (Z_le_gt_dec b a) as [Hle|Hgt].
+  - apply (egcd_spec (Z.to_nat (2 * L + 4)) a b g s t); [lia| |exact E].
+    rewrite Z2Nat.id by lia.
+    assert (Hp4 : 2 ^ (2 * L + 3) <= 2 ^ (2 * L + 4)) by (apply Z.pow_le_mono_r; lia). lia.
+  - replace (Z.to_nat (2 * L + 4)) with (S (Z.to_nat (2 * L + 3))) in E by lia.
+    cbn [egcd] in E.
+    destruct (Z.eqb_spec b 0) as [Eb|Nb]; [lia|].
+    rewrite (Z.mod_small a b), (Z.div_small a b) in E by lia.
+    destruct (egcd (Z.to_nat (2 * L + 3)) b a) as [[g' s'] t'] eqn:E'.
+    inversion E; subst g s t. clear E.
+    destruct (egcd_spec (Z.to_nat (2 * L + 3)) b a g' s' t') as [Hg Hz]; [lia| |exact E'|].
+    + rewrite Z2Nat.id by lia. lia.
+    + split; [rewrite Hg; apply Z.gcd_comm|lia].
+Qed.
+
+(* ------------------------------------------------------------------ *)
+(* mpz_gcdext                                                           *)
+
+Lemma sgn_mul_cases a x : a <> 0 -> Z.sgn a * x = x \/ Z.sgn a * x = - x.
+Proof. intros Ha. destruct a as [|p|p]; [contradiction|left|right]; cbn [Z.sgn]; lia. Qed.
+
+Lemma gcdext_main a b g s0 t0 : a <> 0 -> b <> 0 ->
+  g = Z.gcd (Z.abs a) (Z.abs b) -> Z.abs a * s0 + Z.abs b * t0 = g ->
+  let b' := Z.abs b / g in
+  let r := s0 mod b' in
+  let s' := if 2 * r <=? b' then r else r - b' in
+  let s'' := if Z.abs b =? Z.abs a then 0 else s' in
+  let s := Z.sgn a * s'' in
+  let t := (g - a * s) / b in
+  g = Z.gcd a b /\ a * s + b * t = g
+  /\ (Z.abs a <> Z.abs b -> 2 * g * Z.abs s <= Z.abs b)
+  /\ (Z.abs a = Z.abs b -> s = 0 /\ t = Z.sgn b)
+  /\ (s = 0 -> g = Z.abs b).
+Proof.
+  intros Ha Hb Hg Hz b' r s' s'' s t.
+  assert (Gg : g = Z.gcd a b) by (rewrite Hg, Z.gcd_abs_l, Z.gcd_abs_r; reflexivity).
+  assert (Pg : 0 < g).
+  { pose proof (Z.gcd_nonneg a b) as Hnn.
+    assert (Hne : Z.gcd a b <> 0) by (rewrite Z.gcd_eq_0; tauto). lia. }
+  destruct (Z.gcd_divide_l (Z.abs a) (Z.abs b)) as (a1 & Ea). rewrite <- Hg in Ea.
+  destruct (Z.gcd_divide_r (Z.abs a) (Z.abs b)) as (b1 & Eb). rewrite <- Hg in Eb.
+  assert (Eb' : b' = b1) by (unfold b'; rewrite Eb; apply Z.div_mul; lia).
+  assert (Pb1 : 0 < b1) by nia.
+  assert (Pa1 : 0 < a1) by nia.
+  assert (Hr : 0 <= r < b') by (apply Z.mod_pos_bound; lia).
+  assert (Hs0 : s0 = b' * (s0 / b') + r) by (apply Z.div_mod; lia).
+  assert (Eas : a * s = Z.abs a * s'').
+  { unfold s. rewrite Z.mul_assoc, Z.sgn_abs. reflexivity. }
+  assert (Hsc : s = s'' \/ s = - s'') by (apply sgn_mul_cases; exact Ha).
+  assert (Ebs : Z.abs b = b * Z.sgn b) by (symmetry; apply Z.sgn_abs).
+  (* the quotient defining t is exact *)
+  assert (Hex : exists m, g - a * s = b * m /\ (Z.abs a = Z.abs b -> m = Z.sgn b)).
+  { rewrite Eas. unfold s''. destruct (Z.eqb_spec (Z.abs b) (Z.abs a)) as [Eab|Nab].
+    - exists (Z.sgn b). split; [|reflexivity].
+      rewrite Hg, Eab, Z.gcd_diag, Z.abs_involutive, <- Eab, Ebs. ring.
+    - assert (Hs' : exists e, s' = s0 - b' * e).
+      { unfold s'. destruct (Z.leb_spec (2 * r) b') as [H1|H1].
+        - exists (s0 / b'). lia.
+        - exists (s0 / b' + 1). lia. }
+      destruct Hs' as (e & He). exists (Z.sgn b * (t0 + a1 * e)). split; [|intros HH; lia].
+      rewrite Z.mul_assoc, <- Ebs, He, Eb', Ea, Eb.
+      rewrite Ea, Eb in Hz. lia. }
+  destruct Hex as (m & Em & Emsgn).
+  assert (Et : t = m) by (unfold t; rewrite Em, Z.mul_comm; apply Z.div_mul; exact Hb).
+  split; [exact Gg|]. split; [rewrite Et; lia|].
+  assert (Es''_ne : Z.abs a <> Z.abs b -> s'' = s').
+  { intros Hne. unfold s''. destruct (Z.eqb_spec (Z.abs b) (Z.abs a)); [lia|reflexivity]. }
+  split; [|split].
+  - intros Hne. rewrite (Es''_ne Hne) in Hsc.
+    assert (H2 : 2 * Z.abs s' <= b').
+    { unfold s'. destruct (Z.leb_spec (2 * r) b'); lia. }
+    assert (Habs : Z.abs s = Z.abs s') by lia.
+    rewrite Habs, Eb. rewrite Eb' in H2.
+    assert (Hmul : g * (2 * Z.abs s') <= g * b1) by (apply Z.mul_le_mono_nonneg_l; lia).
+    lia.
+  - intros Heq. split; [|rewrite Et; apply Emsgn; exact Heq].
+    unfold s, s''. destruct (Z.eqb_spec (Z.abs b) (Z.abs a)); [lia|lia].
+  - intros Hs. assert (Hs'' : s'' = 0) by lia.
+    destruct (Z.eq_dec (Z.abs a) (Z.abs b)) as [Heq|Hne].
+    + rewrite Hg, Heq, Z.gcd_diag. lia.
+    + rewrite (Es''_ne Hne) in Hs''. unfold s' in Hs''.
+      destruct (Z.leb_spec (2 * r) b') as [H1|H1]; [|lia].
+      rewrite Hs'', Z.add_0_r in Hs0.
+      rewrite Ea, Eb, Hs0, Eb' in Hz.
+      assert (Hone : b1 * (a1 * (s0 / b1) + t0) = 1) by nia.
+      apply Z.eq_mul_1_nonneg in Hone; [|lia].
+      destruct Hone as [Hb1 _]. rewrite Eb, Hb1. lia.
+Qed.
+
+Lemma gcdext_spec : forall a b,
+  let '(g, s, t) := gcdext a b in
+  g = Z.gcd a b /\ a * s + b * t = g
+  /\ (a <> 0 -> b <> 0 -> Z.abs a <> Z.abs b -> 2 * g * Z.abs s <= Z.abs b)
+  /\ (b = 0 -> s = Z.sgn a /\ t = 0)
+  /\ (a = 0 -> b <> 0 -> s = 0 /\ t = Z.sgn b)
+  /\ (a <> 0 -> Z.abs a = Z.abs b -> s = 0 /\ t = Z.sgn b)
+  /\ (a <> 0 -> b <> 0 -> s = 0 -> g = Z.abs b).
+Proof.
+  intros a b. unfold gcdext.
+  destruct (Z.eqb_spec b 0) as [Eb|Nb].
+  - subst b. rewrite Z.gcd_0_r. pose proof (Z.sgn_abs a) as Hsa.
+    repeat split; try lia.
+  - destruct (Z.eqb_spec a 0) as [Ea|Na].
+    + subst a. pose proof (Z.gcd_0_l b) as Hg0. pose proof (Z.sgn_abs b) as Hsb.
+      repeat split; try lia.
+    + cbv zeta.
+      destruct (egcd (egcd_fuel (Z.abs a) (Z.abs b)) (Z.abs a) (Z.abs b)) as [[g s0] t0] eqn:E.
+      apply egcd_top in E; [|lia|lia]. destruct E as [Hg Hz].
+      pose proof (gcdext_main a b g s0 t0 Na Nb Hg Hz) as HM. cbv zeta in HM.
+      destruct HM as (M1 & M2 & M3 & M4 & M5).
+      split; [exact M1|]. split; [exact M2|]. split; [intros _ _; exact M3|].
+      split; [intros Hb0; contradiction|]. split; [intros Ha0; contradiction|].
+      split; [intros _; exact M4|intros _ _; exact M5].
+Qed.
+
+(* ------------------------------------------------------------------ *)
+(* lcm and invert                                                       *)
+
+Lemma lcm_spec : forall a b, mpz_lcm a b = Z.lcm a b /\ 0 <= mpz_lcm a b.
+Proof.
+  intros a b.
+  assert (E : mpz_lcm a b = Z.lcm a b).
+  { unfold mpz_lcm, Z.lcm.
+    destruct (Z.eqb_spec a 0) as [Ea|Na]; cbn [orb].
+    - subst a. reflexivity.
+    - destruct (Z.eqb_spec b 0) as [Eb|Nb].
+      + subst b. rewrite Z.gcd_0_r. cbn [Z.div Z.div_eucl]. rewrite Z.mul_0_r. reflexivity.
+      + pose proof (Z.gcd_nonneg a b) as Hnn.
+        assert (Hne : Z.gcd a b <> 0) by (rewrite Z.gcd_eq_0; tauto).
+        destruct (Z.gcd_divide_r a b) as (q & Eq).
+        set (g := Z.gcd a b) in *.
+        rewrite Eq at 2. rewrite Z.div_mul by exact Hne.
+        rewrite Eq at 1. rewrite Z.mul_assoc, Z.abs_mul, (Z.abs_eq g) by lia.
+        apply Z.div_mul. exact Hne. }
+  split; [exact E|]. rewrite E. apply Z.lcm_nonneg.
+Qed.
+
+Lemma invert_spec : forall x n, 1 < Z.abs n ->
+  (mpz_invert x n = None <-> Z.gcd x n <> 1)
+  /\ (forall r, mpz_invert x n = Some r -> 0 <= r < Z.abs n /\ (x * r) mod Z.abs n = 1).
+Proof.
+  intros x n Hn. unfold mpz_invert.
+  destruct (Z.eqb_spec x 0) as [Ex|Nx]; cbn [orb].
+  { subst x. rewrite Z.gcd_0_l. split; [split; [lia|reflexivity]|intros r Hr; discriminate Hr]. }
+  destruct (Z.eqb_spec (Z.abs n) 1) as [E1|_]; [lia|]. cbn [orb].
+  destruct (Z.eqb_spec n 0) as [E0|Nn]; [lia|].
+  pose proof (gcdext_spec x n) as G.
+  destruct (gcdext x n) as [[g s] t].
+  destruct G as (Gg & Gz & Gb & _ & _ & Geq & _).
+  destruct (Z.eqb_spec g 1) as [Eg|Ng]; cbn [negb].
+  - split; [split; [intros HH; discriminate HH|intros HH; lia]|].
+    intros r Hr. inversion Hr as [Er]. clear Hr.
+    assert (Hne : Z.abs x <> Z.abs n).
+    { intros Heq. rewrite <- Z.gcd_abs_l, <- Z.gcd_abs_r, Heq, Z.gcd_diag in Gg. lia. }
+    specialize (Gb Nx Nn Hne).
+    assert (Hmod : (x * s) mod Z.abs n = 1).
+    { replace (x * s) with (1 + (- t * Z.sgn n) * Z.abs n).
+      - rewrite Z.mod_add by lia. apply Z.mod_1_l. exact Hn.
+      - rewrite <- Z.mul_assoc, (Z.mul_comm (Z.sgn n)), Z.abs_sgn. lia. }
+    destruct (Z.ltb_spec s 0) as [Hneg|Hpos].
+    + split; [lia|].
+      replace (x * (s + Z.abs n)) with (x * s + x * Z.abs n) by ring.
+      rewrite Z.mod_add by lia. exact Hmod.
+    + split; [lia|exact Hmod].
+  - split; [split; [intros _; lia|reflexivity]|intros r Hr; discriminate Hr].
+Qed.
+
+(* ------------------------------------------------------------------ *)
+(* Kronecker symbol                                                     *)
+
+Lemma two_over_pm n : two_over n = 1 \/ two_over n = -1.
+Proof. unfold two_over. cbv zeta. destruct ((n mod 8 =? 1) || (n mod 8 =? 7)); [left|right]; reflexivity. Qed.
+
+Lemma jacobi_loop_range : forall fuel a n sign, sign = 1 \/ sign = -1 ->
+  jacobi_loop fuel a n sign = -1 \/ jacobi_loop fuel a n sign = 0 \/ jacobi_loop fuel a n sign = 1.
+Proof.
+  induction fuel as [|f IH]; intros a n sign Hs; cbn [jacobi_loop]; [lia|]. cbv zeta.
+  destruct (a mod n =? 0).
+  - destruct (n =? 1); lia.
+  - apply IH.
+    pose proof (two_over_pm n) as Ht.
+    destruct (Z.odd (ctz (a mod n)));
+      destruct ((a mod n / 2 ^ ctz (a mod n) mod 4 =? 3) && (n mod 4 =? 3)); lia.
+Qed.
+
+Lemma jacobi_loop_zero : forall fuel a n sign,
+  0 < n -> Z.odd n = true -> sign = 1 \/ sign = -1 ->
+  2 * (n * (a mod n)) < 2 ^ Z.of_nat fuel -> (1 <= fuel)%nat ->
+  (jacobi_loop fuel a n sign = 0 <-> Z.gcd a n <> 1).
+Proof.
+  induction fuel as [|f IH]; intros a n sign Pn On Hs Hb Hf; [lia|].
+  cbn [jacobi_loop]. cbv zeta.
+  assert (Nn : n <> 0) by lia.
+  pose proof (Z.mod_pos_bound a n Pn) as Hr.
+  assert (Hg : Z.gcd a n = Z.gcd (a mod n) n) by (rewrite Z.gcd_mod by exact Nn; apply Z.gcd_comm).
+  rewrite Hg. set (a1 := a mod n) in *.
+  destruct (Z.eqb_spec a1 0) as [E0|N0].
+  - rewrite E0, Z.gcd_0_l. destruct (Z.eqb_spec n 1) as [E1|N1]; lia.
+  - assert (P1 : 0 < a1) by lia.
+    destruct (strip2_spec a1 P1) as (Ps & Os & Es & Ls).
+    change (a1 / 2 ^ ctz a1) with (strip2 a1).
+    set (a' := strip2 a1) in *.
+    rewrite Nat2Z.inj_succ, Z.pow_succ_r in Hb by lia.
+    assert (Hna : 1 <= n * a1) by nia.
+    assert (Hf1 : (1 <= f)%nat).
+    { destruct f as [|f']; [|lia]. change (2 ^ Z.of_nat 0) with 1 in Hb. lia. }
+    assert (Pa' : a' <> 0) by lia.
+    pose proof (Z.mod_pos_bound n a' Ps) as Hr2.
+    pose proof (Z.div_mod n a' Pa') as Hdm.
+    assert (Hq : 0 < n / a') by (apply Z.div_str_pos; lia).
+    set (q := n / a') in *. set (r2 := n mod a') in *.
+    assert (H2r : 2 * r2 < n) by nia.
+    assert (Hm1 : a' * (2 * r2) <= a' * n) by (apply Z.mul_le_mono_nonneg_l; lia).
+    assert (Hm2 : a' * n <= a1 * n) by (apply Z.mul_le_mono_nonneg_r; lia).
+    rewrite IH; try assumption.
+    + rewrite Z.gcd_comm. unfold a'. rewrite (gcd_strip2 a1 n P1 On). reflexivity.
+    + pose proof (two_over_pm n) as Ht.
+      destruct (Z.odd (ctz a1)); destruct ((a' mod 4 =? 3) && (n mod 4 =? 3)); lia.
+    + fold r2. lia.
+Qed.
+
+Lemma jacobi_zero a n : 0 < n -> Z.odd n = true -> (jacobi a n = 0 <-> Z.gcd a n <> 1).
+Proof.
+  intros Pn On. unfold jacobi. apply jacobi_loop_zero; try assumption; [left; reflexivity| |].
+  - pose proof (Z.log2_nonneg n) as Hl.
+    rewrite Z2Nat.id by lia.
+    pose proof (Z.mod_pos_bound a n Pn) as Hr.
+    assert (Hm : n * (a mod n) < 2 ^ (2 * Z.log2 n + 2)) by (apply mul_lt_pow2_log2; lia).
+    replace (2 * Z.log2 n + 4) with (Z.succ (Z.succ (2 * Z.log2 n + 2))) by lia.
+    rewrite !Z.pow_succ_r by lia. lia.
+  - pose proof (Z.log2_nonneg n) as Hl. lia.
+Qed.
+
+Lemma jacobi_periodic a b k : 0 < b -> jacobi (a + k * b) b = jacobi a b.
+Proof.
+  intros Pb. unfold jacobi.
+  pose proof (Z.log2_nonneg b) as Hl.
+  replace (Z.to_nat (2 * Z.log2 b + 4)) with (S (Z.to_nat (2 * Z.log2 b + 3))) by lia.
+  cbn [jacobi_loop]. rewrite Z.mod_add by lia. reflexivity.
+Qed.
+
+Lemma kronecker_odd_pos a b : 0 < b -> Z.odd b = true -> kronecker a b = jacobi a b.
+Proof.
+  intros Pb Ob. unfold kronecker.
+  destruct (Z.eqb_spec b 0) as [E0|_]; [lia|].
+  rewrite <- (Z.negb_odd b), Ob. cbn [negb]. rewrite andb_false_r. cbv zeta.
+  rewrite (Z.abs_eq b) by lia. rewrite (ctz_of_odd b Ob).
+  destruct (Z.ltb_spec b 0) as [Hlt|_]; [lia|]. cbn [andb Z.odd].
+  rewrite Z.pow_0_r, Z.div_1_r. lia.
+Qed.
+
+Lemma even_even_gcd a b : Z.even a = true -> Z.even b = true -> Z.gcd a b <> 1.
+Proof.
+  intros Ea Eb HG. apply Z.even_spec in Ea. apply Z.even_spec in Eb.
+  destruct Ea as (x & Ex). destruct Eb as (y & Ey).
+  assert (Hd : (2 | Z.gcd a b)) by (apply Z.gcd_greatest; [exists x|exists y]; lia).
+  rewrite HG in Hd. destruct Hd as (z & Ez). lia.
+Qed.
+
+Lemma kronecker_spec : forall a b,
+  (kronecker a b = -1 \/ kronecker a b = 0 \/ kronecker a b = 1)
+  /\ (kronecker a b = 0 <-> Z.gcd a b <> 1)
+  /\ (forall k, 0 < b -> Z.odd b = true -> jacobi (a + k * b) b = jacobi a b)
+  /\ (0 < b -> Z.odd b = true -> kronecker a b = jacobi a b).
+Proof.
+  intros a b.
+  assert (Hmain : (kronecker a b = -1 \/ kronecker a b = 0 \/ kronecker a b = 1)
+                  /\ (kronecker a b = 0 <-> Z.gcd a b <> 1)).
+  { unfold kronecker.
+    destruct (Z.eqb_spec b 0) as [E0|N0].
+    - subst b. rewrite Z.gcd_0_r. destruct (Z.eqb_spec (Z.abs a) 1); lia.
+    - destruct (Z.even a && Z.even b) eqn:Eev.
+      + apply andb_prop in Eev. destruct Eev as [Ea Eb].
+        pose proof (even_even_gcd a b Ea Eb) as HG. split; [lia|tauto].
+      + cbv zeta.
+        assert (Pab : 0 < Z.abs b) by lia.
+        destruct (strip2_spec _ Pab) as (Ps & Os & Es & _).
+        pose proof (ctz_nonneg (Z.abs b)) as Hk.
+        change (Z.abs b / 2 ^ ctz (Z.abs b)) with (strip2 (Z.abs b)).
+        set (bo := strip2 (Z.abs b)) in *. set (k := ctz (Z.abs b)) in *.
+        (* the odd part of b carries the whole gcd *)
+        assert (HG : Z.gcd a b = Z.gcd a bo).
+        { rewrite <- (Z.gcd_abs_r a b), Es.
+          destruct (Z.even a) eqn:Ea; cbn [andb] in Eev.
+          - assert (Ob : Z.odd (Z.abs b) = true).
+            { destruct (Z.abs_spec b) as [[_ Eab]|[_ Eab]]; rewrite Eab;
+                [|rewrite Z.odd_opp]; rewrite <- Z.negb_even, Eev; reflexivity. }
+            unfold k. rewrite (ctz_of_odd _ Ob), Z.pow_0_r, Z.mul_1_l. reflexivity.
+          - assert (Oa : Z.odd a = true) by (rewrite <- Z.negb_even, Ea; reflexivity).
+            rewrite (Z.gcd_comm a), (Z.gcd_comm a). apply gcd_strip_pow2; assumption. }
+        rewrite HG.
+        pose proof (jacobi_zero a bo Ps Os) as HZ.
+        assert (HR : jacobi a bo = -1 \/ jacobi a bo = 0 \/ jacobi a bo = 1)
+          by (apply jacobi_loop_range; left; reflexivity).
+        pose proof (two_over_pm a) as Ht.
+        set (j := jacobi a bo) in *.
+        destruct ((b <? 0) && (a <? 0)); destruct (Z.odd k);
+          (split; [|rewrite <- HZ]; lia). }
+  destruct Hmain as [H1 H2]. split; [exact H1|]. split; [exact H2|]. split.
+  - intros k Pb _. apply jacobi_periodic. exact Pb.
+  - apply kronecker_odd_pos.
+Qed.
+
+Lemma C07_example :
+  gcdext 240 46 = (2, -9, 47) /\ mpz_invert 3 (-7) = Some 5 /\ kronecker 2 15 = 1 /\ kronecker (-1) (-1) = -1
+  /\ kronecker 5 0 = 0 /\ gcd_1 (3 * 2 ^ 40) (9 * 2 ^ 13) = 3 * 2 ^ 13.
+Proof. vm_compute. repeat split; reflexivity. Qed.
